@@ -85,7 +85,7 @@ func drawContractOps(t *sim.Tape) []cop {
 	ops := []cop{{kind: "form"}}
 	n := t.Range(3, 10)
 	for i := 0; i < n; i++ {
-		k := pick(t, "append", "append", "append", "free", "roots", "fund", "fund", "replenish", "renew", "refresh-full", "refresh-partial", "fund-exact", "fund-over", "expired-prices", "bad-prices-sig", "append-big", "hostile", "hostile-host")
+		k := pick(t, "append", "append", "append", "free", "roots", "fund", "fund", "replenish", "renew", "refresh-full", "refresh-partial", "fund-exact", "fund-over", "replenish-exact", "replenish-over", "expired-prices", "bad-prices-sig", "append-big", "hostile", "hostile-host")
 		if i == n-1 && t.Chance(1, 4) {
 			// the last thing that happens: the renter comes back with a stale price
 			// table and basis when the chain has (nearly or fully) reached the proof height
@@ -771,7 +771,7 @@ func runContractV2(s *Session, ops []cop) {
 				if rerr == nil && !host.pk.VerifyHash(chain.s.ContractSigHash(rev), sig) {
 					bad("parties-disagree", "sector roots: the host signed a different revision than the renter derived")
 				}
-			case "fund", "fund-exact", "fund-over", "replenish":
+			case "fund", "fund-exact", "fund-over", "replenish", "replenish-exact", "replenish-over":
 				amount := cur.RenterOutput.Value.Div64(uint64(2 + op.r[0]%9))
 				switch kind {
 				case "fund-exact":
@@ -779,7 +779,17 @@ func runContractV2(s *Session, ops []cop) {
 				case "fund-over":
 					amount = cur.RenterOutput.Value.Add(types.NewCurrency64(1))
 				}
-				noop := kind == "replenish" && op.r[2]%4 == 0 // every account is already at its target: nothing to deposit
+				// replenishing accounts up to the whole remaining allowance, and one hasting past it
+				edge := kind == "replenish-exact" || kind == "replenish-over"
+				if edge {
+					amount = cur.RenterOutput.Value
+					if kind == "replenish-over" {
+						amount = amount.Add(types.NewCurrency64(uint64(1 + op.r[3]%1000)))
+					}
+					kind = "replenish"
+					e.inc("c17.replenish-at-the-allowance")
+				}
+				noop := kind == "replenish" && !edge && op.r[2]%4 == 0 // every account is already at its target: nothing to deposit
 				if amount.IsZero() && !noop {
 					continue
 				}
@@ -791,6 +801,9 @@ func runContractV2(s *Session, ops []cop) {
 				id := rhp4.RPCFundAccountsID
 				if kind == "replenish" {
 					k := uint64(1 + op.r[1]%3)
+					if edge {
+						k = 1
+					}
 					target := amount.Div64(k)
 					if target.IsZero() {
 						if !noop {
